@@ -5,6 +5,7 @@ CONSTANTS
   MaxOps = 1000000
   MaxNodes = 40
   Top = 3
+  IterProcs = {}
   InFlightDelN = TRUE
   FIXK1 = TRUE
 INVARIANT NoDrift
